@@ -254,6 +254,14 @@ impl<R: Registry> VxTokenSet<R> {
 pub open spec fn vx_table_copy<R: Registry>(c: archetype::Archetype<R>, t: archetype::Archetype<R>, k2: archetype::IdentifierRef<R>) -> bool {
     c.wf() && c.key() == k2 && c.length == t.length && c.ids() == t.ids() && c.rows() == t.rows() && vx_key_bits(k2) == vx_key_bits(t.key())
 }
+/// source table under key `k` has its value copy in `dst` under `map[k]`
+pub open spec fn vx_copied<R: Registry>(
+    map: IMap<archetype::IdentifierRef<R>, archetype::IdentifierRef<R>>,
+    dst: IMap<archetype::IdentifierRef<R>, archetype::Archetype<R>>,
+    src: IMap<archetype::IdentifierRef<R>, archetype::Archetype<R>>,
+    k: archetype::IdentifierRef<R>) -> bool {
+    map.dom().contains(k) && dst.dom().contains(map[k]) && vx_table_copy(dst[map[k]], src[k], map[k])
+}
 /// the old-key -> new-key map returned by Archetypes::clone / clone_from
 pub open spec fn vx_is_key_map<R: Registry>(
     map: IMap<archetype::IdentifierRef<R>, archetype::IdentifierRef<R>>,
@@ -344,6 +352,55 @@ impl<R: Registry> Archetypes<R> {
 }
 '''
 
+CLEAR_SPEC = r"""
+/// identifier `i` is stored in one of the first `n` tables of the enumeration `keys`
+pub open spec fn vx_stored_prefix<R: Registry>(m: IMap<archetype::IdentifierRef<R>, archetype::Archetype<R>>, keys: Seq<archetype::IdentifierRef<R>>, n: int, i: entity::Identifier) -> bool {
+    exists|j: int| 0 <= j < n && (#[trigger] m[keys[j]]).ids().contains(i)
+}
+pub proof fn lemma_stored_prefix_step<R: Registry>(m: IMap<archetype::IdentifierRef<R>, archetype::Archetype<R>>, keys: Seq<archetype::IdentifierRef<R>>, n: int, i: entity::Identifier)
+    requires 0 <= n < keys.len(),
+    ensures vx_stored_prefix(m, keys, n + 1, i) == (vx_stored_prefix(m, keys, n, i) || m[keys[n]].ids().contains(i)),
+{
+    if vx_stored_prefix(m, keys, n + 1, i) {
+        let j = choose|j: int| 0 <= j < n + 1 && (#[trigger] m[keys[j]]).ids().contains(i);
+        if j < n { assert(0 <= j < n && m[keys[j]].ids().contains(i)); }
+    }
+    if vx_stored_prefix(m, keys, n, i) {
+        let j = choose|j: int| 0 <= j < n && (#[trigger] m[keys[j]]).ids().contains(i);
+        assert(0 <= j < n + 1 && m[keys[j]].ids().contains(i));
+    }
+    if m[keys[n]].ids().contains(i) {
+        assert(0 <= n < n + 1 && m[keys[n]].ids().contains(i));
+    }
+}
+/// over the whole enumeration, "stored in a prefix table" is "stored in the table set"
+pub proof fn lemma_stored_prefix_all<R: Registry>(m: IMap<archetype::IdentifierRef<R>, archetype::Archetype<R>>, keys: Seq<archetype::IdentifierRef<R>>, i: entity::Identifier)
+    requires
+        forall|k: archetype::IdentifierRef<R>| m.dom().contains(k) == keys.contains(k),
+        forall|k: archetype::IdentifierRef<R>| m.dom().contains(k) ==> (#[trigger] m[k]).wf(),
+    ensures vx_stored_prefix(m, keys, keys.len() as int, i) == vx_stored(m, i),
+{
+    if vx_stored_prefix(m, keys, keys.len() as int, i) {
+        let j = choose|j: int| 0 <= j < keys.len() && (#[trigger] m[keys[j]]).ids().contains(i);
+        let k = keys[j];
+        assert(keys.contains(k));
+        assert(m.dom().contains(k));
+        assert(m[k].wf());
+        let r = choose|r: int| 0 <= r < m[k].ids().len() && m[k].ids()[r] == i;
+        assert(m.dom().contains(k) && 0 <= r < m[k].length && m[k].ids()[r] == i);
+    }
+    if vx_stored(m, i) {
+        let (k, r) = choose|k: archetype::IdentifierRef<R>, r: int| m.dom().contains(k) && 0 <= r < m[k].length && #[trigger] m[k].ids()[r] == i;
+        assert(keys.contains(k));
+        let j = choose|j: int| 0 <= j < keys.len() && keys[j] == k;
+        assert(m[k].wf());
+        assert(m[keys[j]].ids()[r] == i);
+        assert(m[keys[j]].ids().contains(i));
+        assert(0 <= j < keys.len() && m[keys[j]].ids().contains(i));
+    }
+}
+"""
+
 CLEAR_BODY_PROOF = r'''proof {
                 let k = vx_k;
                 let t0 = vx_a0@[k];
@@ -370,16 +427,11 @@ CLEAR_BODY_PROOF = r'''proof {
                         }
                     }
                 }
-                assert forall|i: entity::Identifier| entity_allocator.resolves(i) == (vx_alloc0.resolves(i) && !(exists|j: int, r: int| 0 <= j < vx_i1 + 1 && 0 <= r < vx_a0@[vx_keys1@[j]].length && #[trigger] vx_a0@[vx_keys1@[j]].ids()[r] == i)) by {
+                assert forall|i: entity::Identifier| entity_allocator.resolves(i) == (vx_alloc0.resolves(i) && !vx_stored_prefix(vx_a0@, vx_keys1@, vx_i1 + 1, i)) by {
+                    lemma_stored_prefix_step(vx_a0@, vx_keys1@, vx_i1 as int, i);
                     assert(entity_allocator.resolves(i) == (vx_pre_alloc.resolves(i) && !t0.ids().contains(i)));
-                    if t0.ids().contains(i) {
-                        let q = choose|q: int| 0 <= q < t0.ids().len() && t0.ids()[q] == i;
-                        assert(vx_a0@[vx_keys1@[vx_i1 as int]].ids()[q] == i);
-                    }
-                    if exists|j: int, r: int| 0 <= j < vx_i1 + 1 && 0 <= r < vx_a0@[vx_keys1@[j]].length && #[trigger] vx_a0@[vx_keys1@[j]].ids()[r] == i {
-                        let (j, r) = choose|j: int, r: int| 0 <= j < vx_i1 + 1 && 0 <= r < vx_a0@[vx_keys1@[j]].length && #[trigger] vx_a0@[vx_keys1@[j]].ids()[r] == i;
-                        if j == vx_i1 { assert(t0.ids()[r] == i); }
-                    }
+                    assert(vx_pre_alloc.resolves(i) == (vx_alloc0.resolves(i) && !vx_stored_prefix(vx_a0@, vx_keys1@, vx_i1 as int, i)));
+                    assert(t0 == vx_a0@[vx_keys1@[vx_i1 as int]]);
                 }
             }'''
 
@@ -391,17 +443,8 @@ CLEAR_END_PROOF = r'''proof {
                 assert(self@[vx_keys1@[j]].length == 0);
             }
             assert forall|i: entity::Identifier| entity_allocator.resolves(i) == (vx_alloc0.resolves(i) && !vx_stored(vx_a0@, i)) by {
-                if vx_stored(vx_a0@, i) {
-                    let (k, r) = choose|k: archetype::IdentifierRef<R>, r: int| vx_a0@.dom().contains(k) && 0 <= r < vx_a0@[k].length && #[trigger] vx_a0@[k].ids()[r] == i;
-                    assert(vx_keys1@.contains(k));
-                    let j = choose|j: int| 0 <= j < vx_keys1@.len() && vx_keys1@[j] == k;
-                    assert(vx_a0@[vx_keys1@[j]].ids()[r] == i);
-                }
-                if exists|j: int, r: int| 0 <= j < vx_n1 && 0 <= r < vx_a0@[vx_keys1@[j]].length && #[trigger] vx_a0@[vx_keys1@[j]].ids()[r] == i {
-                    let (j, r) = choose|j: int, r: int| 0 <= j < vx_n1 && 0 <= r < vx_a0@[vx_keys1@[j]].length && #[trigger] vx_a0@[vx_keys1@[j]].ids()[r] == i;
-                    assert(vx_keys1@.contains(vx_keys1@[j]));
-                    assert(vx_a0@.dom().contains(vx_keys1@[j]));
-                }
+                lemma_stored_prefix_all(vx_a0@, vx_keys1@, i);
+                assert(vx_i1 == vx_keys1@.len());
             }
         }'''
 
@@ -422,8 +465,7 @@ CF1_PROOF = r'''proof {
                 }
                 assert(self@.dom().contains(k2));
                 assert(vx_table_copy(self@[k2], src, k2));
-                assert forall|j: int| 0 <= j < i + 1 implies #[trigger] identifier_map@.dom().contains(vx_keys1@[j]) && self@.dom().contains(identifier_map@[vx_keys1@[j]])
-                    && vx_table_copy(self@[identifier_map@[vx_keys1@[j]]], source@[vx_keys1@[j]], identifier_map@[vx_keys1@[j]]) by {
+                assert forall|j: int| 0 <= j < i + 1 implies vx_copied(identifier_map@, self@, source@, #[trigger] vx_keys1@[j]) by {
                     if j == i {
                         assert(vx_keys1@[j] == k);
                         assert(vx_table_copy(self@[identifier_map@[vx_keys1@[j]]], source@[vx_keys1@[j]], identifier_map@[vx_keys1@[j]]));
@@ -747,6 +789,7 @@ def build(only=None, name="archs"):
         (r"foreign_identifier_lookup:\s*HashMap<&'static \[u8\], archetype::IdentifierRef<R>, FnvBuildHasher>", "foreign_identifier_lookup: VxBytesMap<R>", "R7: hashbrown HashMap identifier bytes -> token"),
     ])
     u.text(SPEC)
+    u.text(CLEAR_SPEC)
     PRE = [("pre.archs_wf", "old(self).wf()")]
     u.impl("impl<R> Archetypes<R> where R: Registry", [
         Fn(AS, IMPL, "new", ret="r",
@@ -816,7 +859,7 @@ def build(only=None, name="archs"):
                ("clear.todo", "forall|j: int| vx_i1 <= j < vx_n1 ==> (#[trigger] self@[vx_keys1@[j]]) == vx_a0@[vx_keys1@[j]]"),
                ("clear.todo_agrees", "forall|j: int| vx_i1 <= j < vx_n1 ==> (#[trigger] vx_a0@[vx_keys1@[j]]).agrees(entity_allocator)"),
                ("clear.alloc_wf", "entity_allocator.wf()"),
-               ("clear.released", "forall|i: entity::Identifier| entity_allocator.resolves(i) == (vx_alloc0.resolves(i) && !(exists|j: int, r: int| 0 <= j < vx_i1 && 0 <= r < vx_a0@[vx_keys1@[j]].length && #[trigger] vx_a0@[vx_keys1@[j]].ids()[r] == i))"),
+               ("clear.released", "forall|i: entity::Identifier| entity_allocator.resolves(i) == (vx_alloc0.resolves(i) && !vx_stored_prefix(vx_a0@, vx_keys1@, vx_i1 as int, i))"),
                ("clear.values", "forall|i: entity::Identifier| entity_allocator.resolves(i) ==> entity_allocator.view()[i] == vx_alloc0.view()[i]"),
                ("clear.slots_len", "entity_allocator.slots@.len() == vx_alloc0.slots@.len()"),
                ("clear.pre", "vx_a0.inv_keyed() && vx_tables_ok(vx_a0@, &vx_alloc0)"),
@@ -842,7 +885,7 @@ def build(only=None, name="archs"):
                Loop(invariant=[
                    ("cf1.enum", "vx_keys1@.len() == vx_n1 && vx_i1 <= vx_n1 && source.raw_archetypes.enumerates(vx_keys1@)"),
                    ("cf1.wf", "self.wf() && vx_tables_wf(self@) && source.wf() && vx_tables_wf(source@) && vx_single_table(source@)"),
-                   ("cf1.copied", "forall|j: int| 0 <= j < vx_i1 ==> #[trigger] identifier_map@.dom().contains(vx_keys1@[j]) && self@.dom().contains(identifier_map@[vx_keys1@[j]]) && vx_table_copy(self@[identifier_map@[vx_keys1@[j]]], source@[vx_keys1@[j]], identifier_map@[vx_keys1@[j]])"),
+                   ("cf1.copied", "forall|j: int| 0 <= j < vx_i1 ==> vx_copied(identifier_map@, self@, source@, #[trigger] vx_keys1@[j])"),
                    ("cf1.map_dom", "forall|k: archetype::IdentifierRef<R>| #[trigger] identifier_map@.dom().contains(k) ==> (exists|j: int| 0 <= j < vx_i1 && vx_keys1@[j] == k)"),
                ], decreases="vx_n1 - vx_i1"),
                Loop(invariant=[
